@@ -258,6 +258,49 @@ def rawlit_tail(rng):
     return b"\x28\xb5\x2f\xfd\x00" + bytes([wl]) + b"".join(blocks), bytes(h.out)
 
 
+def biglit_frame(rng):
+    """valid single-block frame whose compressed block has MORE than 64 KiB of literals (RLE or raw) and only a few (1..8) sequences with
+    long literal runs and very long matches, regenerating close to 128 KiB: decoded into a destination with no spare room the literals are
+    split between the end of the destination and the decoder's side buffer, and the hand-over falls among the last sequences; decoded into
+    a destination that is slightly too small, the overflow is discovered late in the block.  Returns (frame, content)."""
+    nlits = rng.randint(65537 + 200, 90000)
+    nseq = rng.randint(1, 8)
+    llc = rng.choice([26, 27, 28, 29, 30])        # literal-length codes with bases 128 .. 2048 (7..11 extra bits)
+    mlc = rng.choice([45, 48, 50, 52])            # match-length codes with bases 515 .. 65539
+    seqs, used_l, total = [], 0, 0
+    budget = 131072
+    for k in range(nseq):
+        ll = LL_base[llc] + rng.getrandbits(LL_bits[llc])
+        ml = ML_base[mlc] + rng.getrandbits(ML_bits[mlc])
+        if used_l + ll > nlits - 1 or total + ll + ml > budget - (nlits - used_l - ll):
+            break
+        seqs.append((ll, ml)); used_l += ll; total += ll + ml
+    if not seqs:
+        seqs = [(LL_base[llc], ML_base[mlc])]; used_l = LL_base[llc]; total = sum(seqs[0])
+    kind = rng.choice([0, 1, 1])
+    if kind == 1:
+        b = rng.getrandbits(8); lits = bytes([b]) * nlits; lit_sec = lit_header(1, nlits, 3) + bytes([b])
+    else:
+        lits = bytes(rng.getrandbits(8) for _ in range(4096)) * (nlits // 4096 + 1); lits = lits[:nlits]; lit_sec = lit_header(0, nlits, 3) + lits
+    # all three tables in RLE mode; offset code 0 = repeat offset 1 (= 1 at the start of a frame: the match repeats the previous byte)
+    sec = bytes([len(seqs)]) + bytes([0x54, llc, 0, mlc])
+    fields = []
+    for (ll, ml) in seqs:
+        if ML_bits[mlc]: fields.append((ml - ML_base[mlc], ML_bits[mlc]))
+        if LL_bits[llc]: fields.append((ll - LL_base[llc], LL_bits[llc]))
+    sec += bitstream(fields)
+    body = lit_sec + sec
+    out = bytearray(); lp = 0
+    for (ll, ml) in seqs:
+        out += lits[lp:lp + ll]; lp += ll
+        out += bytes([out[-1]]) * ml
+    out += lits[lp:]
+    if len(out) > 131072 or len(body) >= 131072:
+        return biglit_frame(rng)
+    blk = ((len(body) << 3) | (2 << 1) | 1).to_bytes(3, "little") + body
+    return b"\x28\xb5\x2f\xfd\x00" + bytes([0x38]) + blk, bytes(out)      # window 128 KiB, no content size, no checksum
+
+
 def stream(rng):
     """several frames and skippable frames back to back"""
     parts, content = [], b""
